@@ -623,6 +623,8 @@ class Script:
             if until_line is None:
                 until_line = line
             if until_column is None:
+                if not (0 < until_line <= len(self._code_lines)):
+                    raise ValueError('`until_line` parameter is not in a valid range.')
                 until_column = len(self._code_lines[until_line - 1])
             until_pos = until_line, until_column
         return extract_variable(
@@ -670,6 +672,8 @@ class Script:
             if until_line is None:
                 until_line = line
             if until_column is None:
+                if not (0 < until_line <= len(self._code_lines)):
+                    raise ValueError('`until_line` parameter is not in a valid range.')
                 until_column = len(self._code_lines[until_line - 1])
             until_pos = until_line, until_column
         return extract_function(
